@@ -390,6 +390,9 @@ impl<'a, 'tcx> BodyCx<'a, 'tcx> {
                 match c {
                     Const::Unevaluated(uv, _) => {
                         v.push(("uneval", esc(&self.cx.path(uv.def))));
+                        if let Some(pi) = uv.promoted {
+                            v.push(("promoted", pi.as_usize().to_string()));
+                        }
                         let gargs: Vec<String> = uv.args.iter().map(|a| esc(&a.to_string())).collect();
                         v.push(("uneval_args", arr(gargs)));
                         if let Some(tr) = tcx.trait_of_assoc(uv.def) {
@@ -510,7 +513,25 @@ impl<'a, 'tcx> BodyCx<'a, 'tcx> {
         }
     }
 
+    fn dump_promoted(&self) -> String {
+        let tcx = self.tcx();
+        let mut out = Vec::new();
+        if let Some(ld) = self.def_id.as_local() {
+            let _ = ld;
+            let proms = tcx.promoted_mir(self.def_id);
+            for pb in proms.iter() {
+                let sub = BodyCx { cx: self.cx, body: pb, def_id: self.def_id, duals: self.duals.clone(), typing_env: self.typing_env };
+                out.push(sub.dump_inner(true));
+            }
+        }
+        arr(out)
+    }
+
     fn dump(&self) -> String {
+        self.dump_inner(false)
+    }
+
+    fn dump_inner(&self, is_promoted: bool) -> String {
         let tcx = self.tcx();
         let body = self.body;
         // var names
@@ -678,6 +699,9 @@ impl<'a, 'tcx> BodyCx<'a, 'tcx> {
         v.push(("dual_params", arr(dl.iter().map(|x| esc(x)).collect())));
         v.push(("locals", arr(locals)));
         v.push(("blocks", arr(blocks)));
+        if !is_promoted {
+            v.push(("promoted", self.dump_promoted()));
+        }
         obj(v)
     }
 }
